@@ -133,10 +133,12 @@ func beRead(v ssa.Value, base ssa.Value) (lo, n int64, loads []ssa.Value, ok boo
 			}
 		case *ssa.UnOp:
 			if b.Op == token.MUL {
-				if ia, isIA := b.X.(*ssa.IndexAddr); isIA && ia.X == base {
-					if k, isK := intConst(ia.Index); isK {
-						terms = append(terms, term{k, shift, b})
-						return
+				if ia, isIA := b.X.(*ssa.IndexAddr); isIA {
+					if off, okO := constSliceOffset(ia.X, base); okO {
+						if k, isK := intConst(ia.Index); isK {
+							terms = append(terms, term{off + k, shift, b})
+							return
+						}
 					}
 				}
 			}
@@ -354,3 +356,26 @@ func absAppend(call *ssa.Call) (base ssa.Value, bytes []absByte, ok bool) {
 }
 
 func stringsHasSuffix(s, suf string) bool { return len(s) >= len(suf) && s[len(s)-len(suf):] == suf }
+
+// constSliceOffset: x is base itself or base[k1:…][k2:…]… with constant lower bounds; returns the offset of x[0] in base.
+func constSliceOffset(x, base ssa.Value) (int64, bool) {
+	off := int64(0)
+	for depth := 0; depth < 6; depth++ {
+		if x == base {
+			return off, true
+		}
+		sl, ok := x.(*ssa.Slice)
+		if !ok {
+			return 0, false
+		}
+		if sl.Low != nil {
+			k, isK := intConst(sl.Low)
+			if !isK {
+				return 0, false
+			}
+			off += k
+		}
+		x = sl.X
+	}
+	return 0, false
+}
